@@ -49,7 +49,7 @@ def select(lines, outs, n, rnd):
     """accepted canonical lines, round-robin over operand-shape classes so that every class is present"""
     groups = collections.defaultdict(list)
     for l, o in zip(lines, outs):
-        if o['st'] == 'list' and o['c'] and l['plaus']:
+        if o['st'] == 'list' and o['c'] and l['plaus'] == '':
             groups[asmlib.shape(l['ins'])].append(l)
     for g in groups.values():
         rnd.shuffle(g)
@@ -148,7 +148,7 @@ def run(tier, chk):
     recs = observe(sel, canon_out, sts)
     # the AT&T transliteration of every other plausible accepted line (layouts cached with the canonical lines)
     insel = set(l['id'] for l in sel)
-    rest = [l for l, o in zip(lines, outs) if o['st'] == 'list' and o['c'] and l['plaus'] and 'att' in l and l['id'] not in insel]
+    rest = [l for l, o in zip(lines, outs) if o['st'] == 'list' and o['c'] and l['plaus'] == '' and 'att' in l and l['id'] not in insel]
     recs += observe(rest, canon_out, [{'lid': l['id'], 'pres': dict(PRES0, syn='att', pct=True), 'line': l['att']} for l in rest])
     sel = sel + rest
     nsp = sum(len(x['evs']) - 1 for x in recs)
@@ -170,7 +170,7 @@ def run(tier, chk):
         k = min(len(x['texts']) - 1, 3)
         chk.sample({'canonical': x['texts'][0], 'spelling': x['texts'][k], 'actions': x['acts'][k], 'same_set': set(x['evs'][0]['c']) == set(x['evs'][k]['c'])})
     report(chk, sel, recs, verdicts)
-    chk.cov['canonical_plausible_accepted'] = sum(1 for l, o in zip(lines, outs) if o['st'] == 'list' and o['c'] and l['plaus'])
+    chk.cov['canonical_plausible_accepted'] = sum(1 for l, o in zip(lines, outs) if o['st'] == 'list' and o['c'] and l['plaus'] == '')
     chk.assumptions += ['only lines whose operand classes fit the mnemonic family (AsmSpace.Plausible) are spelled; accepting the others is a C02 matter',
                         'mnemonic letter case is not varied (the property lists registers and size keywords only)',
                         'an AT&T transliteration exists only where the AT&T spelling can carry the operand sizes (Syntax.AttOK)']
